@@ -552,6 +552,10 @@ def generate():
     write_if_changed(os.path.join(gen_dir, "Guards.lean"), "\n".join(out))
     report["files"].append("Gen/Guards.lean")
     report["guards"] = guards
+    # ---- HKern.lean: the array kernels of the H recursion (vlib/py2lean_kern.py) ---------------
+    import py2lean_kern
+    report["kernels"] = py2lean_kern.generate_hkern(fns, gen_dir, write_if_changed)
+    report["files"].append("Gen/HKern.lean")
     # ---- Dispatch.lean (for the line-protocol driver): every generated def by name ------------
     import re as _re
     cases = []
@@ -614,8 +618,10 @@ def write_if_changed(path, text):
 
 if __name__ == "__main__":
     import json
+    sys.path.insert(0, os.path.dirname(os.path.abspath(__file__)))
+    import py2lean as _self  # the module object that vlib/py2lean_kern.py shares
     try:
-        print(json.dumps(generate(), indent=1, ensure_ascii=False))
-    except TranslationError as e:
+        print(json.dumps(_self.generate(), indent=1, ensure_ascii=False))
+    except _self.TranslationError as e:
         print("TRANSLATION-ERROR:", e)
         sys.exit(3)
